@@ -207,9 +207,11 @@ void GMGPolar::solve()
     LIKWID_STOP("Solve");
 
     if (paraview_) {
-        computeExactError(level, level.solution(), level.residual());
         writeToVTK("output_solution", level, level.solution());
-        writeToVTK("output_error", level, level.residual());
+        if (exact_solution_ != nullptr) {
+            computeExactError(level, level.solution(), level.residual());
+            writeToVTK("output_error", level, level.residual());
+        }
     }
 }
 
